@@ -31,6 +31,7 @@ func registerStoreModels() {
 		return func(m *Machine, _ *Frame, _ *ssa.CallCommon, a []Val) Val {
 			aStore(m)
 			v := Select(m.S(), term(a[1]))
+			m.ghostOnRead(term(a[1]))
 			if withErr {
 				return &TupleV{Vs: []Val{v, IntLit(0)}}
 			}
@@ -93,6 +94,14 @@ func registerStoreModels() {
 		p := term(a[1])
 		return m.newIter("prefix", func(k *Term) *Term { return App(SBool, "pfx", k, p) })
 	}
+	models[pkgStoreT+".PrefixEndBytes"] = func(m *Machine, _ *Frame, _ *ssa.CallCommon, a []Val) Val {
+		aStore(m)
+		m.E.D.Fun("pfxend", []Sort{SBytes}, SBytes)
+		m.E.Assume("A-KEYS", "store keys are read algebraically (see keymodel.go); PrefixEndBytes(p) is the least key greater than every key with prefix p")
+		m.E.D.Axiom("(forall ((k Bytes) (t Int)) (! (= (krange k g_UndelegationQueueKey (pfxend (pUndelQByTime t))) (and (= (ktag k) 8) (<= (kUndelQ_1 k) t))) :pattern ((krange k g_UndelegationQueueKey (pfxend (pUndelQByTime t))))))")
+		m.E.D.Axiom("(forall ((k Bytes) (t Int)) (! (= (krange k g_RedelegationQueueKey (pfxend (kRedelQ t))) (and (= (ktag k) 7) (<= (kRedelQ_1 k) t))) :pattern ((krange k g_RedelegationQueueKey (pfxend (kRedelQ t))))))")
+		return App(SBytes, "pfxend", term(a[0]))
+	}
 	models["bytes.HasSuffix"] = func(m *Machine, _ *Frame, _ *ssa.CallCommon, a []Val) Val {
 		aStore(m)
 		return App(SBool, "sfx", term(a[0]), term(a[1]))
@@ -126,8 +135,8 @@ func (m *Machine) newIter(kind string, match func(k *Term) *Term) Val {
 		n.S, snap.S, kj.S, match(kj).S, idx, kj.S, keys.S)))
 	// completeness: every present key in range is enumerated
 	kk := T(SBytes, "k")
-	m.AssumeT(T(SBool, fmt.Sprintf("(forall ((k Bytes)) (! (=> (and (not (= (select %s k) bnil)) %s) (and (<= 0 (%s k)) (< (%s k) %s) (= (select %s (%s k)) k))) :pattern ((%s k))))",
-		snap.S, match(kk).S, idx, idx, n.S, keys.S, idx, idx)))
+	m.AssumeT(T(SBool, fmt.Sprintf("(forall ((k Bytes)) (! (=> (and (not (= (select %s k) bnil)) %s) (and (<= 0 (%s k)) (< (%s k) %s) (= (select %s (%s k)) k))) :pattern ((%s k)) :pattern ((select %s k))))",
+		snap.S, match(kk).S, idx, idx, n.S, keys.S, idx, idx, snap.S)))
 	// ascending order
 	m.AssumeT(T(SBool, fmt.Sprintf("(forall ((i Int) (j Int)) (! (=> (and (<= 0 i) (< i j) (< j %s)) (klt (select %s i) (select %s j))) :pattern ((select %s i) (select %s j))))",
 		n.S, keys.S, keys.S, keys.S, keys.S)))
@@ -152,6 +161,7 @@ func (m *Machine) iterMethod(it *IterV, meth string, args []Val) Val {
 		return Select(st.Keys, st.Pos)
 	case "Value":
 		m.safeSite("iterval", Lt(st.Pos, st.N), "Iterator.Value panics when the iterator is not valid")
+		m.ghostOnRead(Select(st.Keys, st.Pos))
 		return Select(st.Snap, Select(st.Keys, st.Pos))
 	case "Close":
 		return IntLit(0)
@@ -186,8 +196,18 @@ func (E *Engine) declCodec(t types.Type) (mar string, unm []string, isenc string
 		unm = append(unm, u)
 		E.D.Fun(u, []Sort{SBytes}, l.Sort)
 		conj = append(conj, fmt.Sprintf("(= (%s %s) x%d)", u, app, i))
+		if strings.HasSuffix(l.Path, "#len") {
+			// decoded slices have non-negative length
+			E.D.Axiom(fmt.Sprintf("(forall ((b Bytes)) (! (>= (%s b) 0) :pattern ((%s b))))", u, u))
+		}
 	}
-	E.D.Axiom(fmt.Sprintf("(forall (%s) (! (and %s) :pattern (%s)))", strings.Join(vars, " "), strings.Join(conj, " "), app))
+	guard := []string{"true"}
+	for i, l := range ls {
+		if strings.HasSuffix(l.Path, "#len") {
+			guard = append(guard, fmt.Sprintf("(>= x%d 0)", i))
+		}
+	}
+	E.D.Axiom(fmt.Sprintf("(forall (%s) (! (=> (and %s) (and %s)) :pattern (%s)))", strings.Join(vars, " "), strings.Join(guard, " "), strings.Join(conj, " "), app))
 	E.Assume("A-CODEC", "cdc.MustMarshal/MustUnmarshal are per-type mutually inverse (Unmarshal(Marshal(x)) = x); Must* panic only on bytes that are not an encoding of the type")
 	return
 }
